@@ -54,7 +54,7 @@ def gen_events(rng, n_lo=3, n_hi=8, with_disk=True) -> list:
 
 
 def gen_save_load(rng) -> dict:
-    ev: dict[str, Any] = {"ev": "save_load", "write_faults": {}, "read_faults": {}, "crash": None, "buffer": rng.choice([64, 512, 8192, 8192])}
+    ev: dict[str, Any] = {"ev": "save_load", "write_faults": {}, "read_faults": {}, "crash": None, "buffer": rng.choice([64, 512, 8192, 8192]), "same_path": rng.random() < 0.7}
     r = rng.random()
     if r < 0.35:
         pass  # fault free
@@ -368,7 +368,9 @@ def _save_load(plan, ev, model, x, world: World, viol, bump, site0, idx):
     """ml.save -> [crash] -> ml.load into a twin built with another key. Returns the model to continue with."""
     cfg = plan["cfg"]
     disk = world.disk
-    path = f"ckpt_{idx}.eqx"
+    # the training loop overwrites one path over and over: mostly reuse it, so that a second (possibly shorter or
+    # partly written) file lands on top of an older complete one
+    path = "ckpt.eqx" if ev.get("same_path", True) else f"ckpt_{idx}.eqx"
     base_w, base_r = disk.write_calls, disk.read_calls
     disk.write_faults = {base_w + int(k): v for k, v in ev["write_faults"].items()}
     disk.read_faults = {}
